@@ -719,8 +719,47 @@ func ruleVarint(c *Ctx, r *RuleResult, encName, decName string) {
 		}
 	}
 	// ---- decoder constants
+	// cmpNorm: a comparison of a value with a constant, written either way round, as (value, op, k)
+	cmpNorm := func(in ssa.Instruction) (ssa.Value, token.Token, int64, bool) {
+		bo, ok := in.(*ssa.BinOp)
+		if !ok {
+			return nil, 0, 0, false
+		}
+		if k, ok := constInt(bo.Y); ok {
+			if _, both := constInt(bo.X); !both {
+				return bo.X, bo.Op, k, true
+			}
+		}
+		if k, ok := constInt(bo.X); ok {
+			op := bo.Op
+			switch op {
+			case token.LSS:
+				op = token.GTR
+			case token.GTR:
+				op = token.LSS
+			case token.LEQ:
+				op = token.GEQ
+			case token.GEQ:
+				op = token.LEQ
+			}
+			return bo.Y, op, k, true
+		}
+		return nil, 0, 0, false
+	}
 	decSmall, ok8 := one("single-byte threshold in "+decName, findConsts(dec, func(in ssa.Instruction) (int64, bool) {
-		if bo, ok := in.(*ssa.BinOp); ok && isByte(bo.X.Type()) {
+		if x, op, k, ok := cmpNorm(in); ok && isByte(x.Type()) {
+			switch op {
+			case token.LEQ:
+				return k, true
+			case token.LSS:
+				return k - 1, true
+			case token.GTR: // the multi-byte branch tested first: b > 127
+				return k, true
+			case token.GEQ:
+				return k - 1, true
+			}
+		}
+		if bo, ok := in.(*ssa.BinOp); ok && false {
 			if k, ok := constInt(bo.Y); ok {
 				switch bo.Op {
 				case token.LEQ:
@@ -741,14 +780,12 @@ func ruleVarint(c *Ctx, r *RuleResult, encName, decName string) {
 		return 0, false
 	}))
 	decMax, ok10 := one("maximum payload length in "+decName, findConsts(dec, func(in ssa.Instruction) (int64, bool) {
-		if bo, ok := in.(*ssa.BinOp); ok && isInt(bo.X.Type()) && !isByte(bo.X.Type()) {
-			if k, ok := constInt(bo.Y); ok {
-				switch bo.Op {
-				case token.GTR:
-					return k, true
-				case token.GEQ:
-					return k - 1, true
-				}
+		if x, op, k, ok := cmpNorm(in); ok && isInt(x.Type()) && !isByte(x.Type()) {
+			switch op {
+			case token.GTR:
+				return k, true
+			case token.GEQ:
+				return k - 1, true
 			}
 		}
 		return 0, false
